@@ -1070,3 +1070,19 @@ def check_conditional_select(ctx, rule, P, only=None, floor=1):
         # panicking impls on mismatched variants etc. still select field-wise where they select
         ctx.ob(rule, k, bool(sels) and not bad, "%s selects (a, b) in this order under `choice`%s" % (k, "" if sels and not bad else ": found operand roots %s" % (bad or "no selection")), where=where(f))
     ctx.floor(rule, "ConditionallySelectable impls", n, floor)
+
+
+def check_aggregate_key_guard(ctx, rule, P):
+    """CoreAggregateVerify's KeyValidate, per entry: the (hash, pk) pair of an entry is built only where !is_identity of the
+    very key it contains holds (an identity key contributes e(H(m), 0) = 1 and would let a pair be added for free)."""
+    fagg = ctx.need_fn(rule, "BlsSignatureCore::core_aggregate_verify", P)
+    if fagg is None:
+        return
+    ents = entry_builders(P, fagg)
+    if not ents:
+        ctx.ob(rule + ".anchor", "BlsSignatureCore::core_aggregate_verify/per-entry pair", False, "per-entry construction of (hash, pk) not found in core_aggregate_verify (missing anchor)", where=where(fagg))
+    for e in ents:
+        comps = e["value"].a[1] if e["value"].op == "agg" else ()
+        pkc = [B.peel(c) for c in comps if not _has_h2p(c)]
+        ok = bool(pkc) and any(not pol and a[0] == "atom" and a[1] == "is_identity" and B.peel(a[2]) == pkc[0] for a, pol in e["lits"])
+        ctx.ob(rule, "BlsSignatureCore::core_aggregate_verify/pairs.push((hash, pk)) per entry", ok, "the per-entry pair (%s) is built only after !is_identity of the very key it contains" % e["mode"], where=where(e["fn"], e["bb"]))
